@@ -239,6 +239,52 @@ let dbwrite_line l =
     show_outcome (fun (b, tbl') -> hex_of_bytes b ^ " " ^ string_of_int (List.length tbl')) (write_build tbl outs deps h)
   with Parse m -> "parse-error " ^ m | Failure m -> "parse-error " ^ m
 
+(* ---- loader: load <fixed> <name-hex> <text-hex> [<name-hex> <content-hex>]... ---- *)
+let opt_hex = function None -> "~" | Some b -> hex_of_bytes b
+let ids_str l = String.concat "," (List.map (fun x -> string_of_int (int_of_nat x)) l)
+let b01 b = if b then "1" else "0"
+
+let dump_loader (l : loader) : string =
+  let bs_ = List.map (fun b ->
+    Printf.sprintf "B %s:%d ins=%s e=%d i=%d o=%d outs=%s eo=%d cmd=%s desc=%s depfile=%s si=%s rsp=%s pool=%s hs=%s hp=%s"
+      (hex_of_bytes b.lb_file) (int_of_z b.lb_line) (ids_str b.lb_ins) (int_of_nat b.lb_explicit_ins)
+      (int_of_nat b.lb_implicit_ins) (int_of_nat b.lb_order_only_ins) (ids_str b.lb_outs)
+      (int_of_nat b.lb_explicit_outs) (opt_hex b.lb_cmdline) (opt_hex b.lb_desc) (opt_hex b.lb_depfile)
+      (b01 b.lb_showincludes)
+      (match b.lb_rspfile with None -> "~" | Some (p, c) -> hex_of_bytes p ^ ":" ^ hex_of_bytes c)
+      (opt_hex b.lb_pool) (b01 b.lb_hide_success) (b01 b.lb_hide_progress)) l.l_builds in
+  let fs = List.map (fun f ->
+    Printf.sprintf "F %s in=%s deps=%s" (hex_of_bytes f.lf_name)
+      (match f.lf_input with None -> "~" | Some b -> string_of_int (int_of_nat b)) (ids_str f.lf_dependents)) l.l_files in
+  let ps = "P " ^ String.concat "," (List.map (fun (n, d) -> hex_of_bytes n ^ "=" ^ hexnum_of_n d) l.l_pools) in
+  let ds = "D " ^ ids_str l.l_defaults in
+  let bd = "BD " ^ opt_hex l.l_builddir in
+  "ok " ^ String.concat ";" (bs_ @ fs @ [ps; ds; bd])
+
+let load_line l =
+  try
+    let ts = toks_of_line l in
+    let fixed = next_int ts = 1 in
+    let name = bytes_of_hex (next ts) in
+    let text = bytes_of_hex (next ts) in
+    let rec rest acc = if peek_tok ts = "" then List.rev acc
+      else (let n = bytes_of_hex (next ts) in let c = bytes_of_hex (next ts) in rest ((n, c) :: acc)) in
+    let fs = rest [] in
+    (match load_manifest fixed (nat_of_int 40) fs name text with
+     | Ok l -> dump_loader l
+     | Err m -> "err " ^ hex_of_bytes m
+     | Panic s -> "panic " ^ string_of_int (int_of_n s)
+     | OutOfBounds s -> "oob " ^ string_of_int (int_of_n s)
+     | OutOfFuel -> "fuel")
+  with Parse m -> "parse-error " ^ m | Failure m -> "parse-error " ^ m
+
+let dedup_line fixed l =
+  match List.map int_of_string (words l) with
+  | e :: ids ->
+    let (o, e') = remove_duplicates fixed (List.map nat_of_int ids) (nat_of_int e) in
+    Printf.sprintf "ok %d %s" (int_of_nat e') (String.concat " " (List.map (fun x -> string_of_int (int_of_nat x)) o))
+  | _ -> "bad"
+
 let suites : (string * (string -> string)) list =
   [ ("canon_impl", canon_impl_line); ("canon", canon_line); ("canon_sem", sem_line);
     ("depfile", depfile_line true); ("depfile_pinned", depfile_line false);
@@ -247,7 +293,8 @@ let suites : (string * (string -> string)) list =
     ("taskmsg", taskmsg_line true); ("taskmsg_pinned", taskmsg_line false);
     ("truncate", truncate_line); ("bar", bar_line); ("status", status_line);
     ("inv", inv_line); ("select", select_line);
-    ("dbopen", dbopen_line); ("dbwrite", dbwrite_line) ]
+    ("dbopen", dbopen_line); ("dbwrite", dbwrite_line);
+    ("load", load_line); ("dedup", dedup_line true); ("dedup_pinned", dedup_line false) ]
 
 let () =
   let suite = if Array.length Sys.argv > 1 then Sys.argv.(1) else "" in
